@@ -101,6 +101,10 @@ def encKind : Kind → Nat → Val → Bytes
   | .binary, t, .bytes b => tlv t b
   | .string _, t, .bytes b => tlv t b
   | .wire, t, .bytes b => tlv t b
+  -- SignatureValue: the value is the signature the CALLER supplies (signing path: `<Model>Encoder`
+  -- with `Sig_estLen = len(sig)` and the signer's output copied into the reserved `T L value`);
+  -- with the plain `Encode()` (`Sig_estLen = 0`) the field is absent and nothing is written.
+  | .signature, t, .bytes b => tlv t b
   | .name, t, .name n => tlv t (encComps n)
   | .interestName, t, .name n => tlv t (encComps (stripDigest n))
   | .struct _ fs, t, .struct vs => tlv t (encFields fs vs)
@@ -133,6 +137,7 @@ def lenKind : Kind → Nat → Val → Nat
   | .binary, t, .bytes b => tlvLen t b.length
   | .string _, t, .bytes b => tlvLen t b.length
   | .wire, t, .bytes b => tlvLen t b.length
+  | .signature, t, .bytes b => tlvLen t b.length   -- `Sig_estLen = len(sig)`; absent ⇒ 0
   | .name, t, .name n => tlvLen t ((n.map fun c => tlLen c.typ + tlLen c.val.length + c.val.length).sum)
   | .interestName, t, .name n =>
       tlvLen t (((stripDigest n).map fun c => tlLen c.typ + tlLen c.val.length + c.val.length).sum)
